@@ -21,6 +21,7 @@ import (
 func Props() []*harness.Prop {
 	return []*harness.Prop{
 		{ID: "C12", Gen: c12Gen, Exec: c12Exec},
+		{ID: "C13", Gen: c13Gen, Exec: c13Exec},
 	}
 }
 
